@@ -10,9 +10,11 @@
     property states it, is the conjunction of the backtracking_enabled of its rules
     ([respec vflag]); the index keeps the flag of the last Add (open finding C02-F2).
     Search (Radix/Machine.v): [find_in false] = findNode as it is (since fix e897fef),
-    [find_in true] = the pinned tree; [load] = any sequence of Add on the empty index. *)
+    [find_in true] = the pinned tree; [load] = any sequence of Add on the empty index;
+    [tree_run] / [mach_run] (C02/Reach.v) = any sequence of Add AND Delete. *)
 From HV Require Import Base.Prelude Radix.Spec Radix.SpecProofs Radix.Machine Radix.MachineProofs
   Radix.Load Radix.LoadProofs Radix.Tree Radix.TreeProofs Radix.TreeAddProofs C02.Model C02.Proofs.
+From HV Require Import C06.TreeDel C02.Reach C02.HistTree C02.ReachRepo.
 
 (** * Property theorems
 
@@ -61,8 +63,10 @@ Proof. exact F2_refuted. Qed.
 Print Assumptions C02_F2_refuted.
 
 (** finding C02-F3 (rule order after UpdateRuleSet; histories are modelled at machine level in
-    C02/Model.v [hstep] and compared with the real repository in stream "history"; the general
-    statement about histories is C06's) *)
+    C02/Model.v [hstep] and on the compressed tree in C02/HistTree.v [hist_tree], both compared
+    with the real repository in stream "history"; that lookups after a history equal lookups
+    after a fresh load is C06's statement; what C02 proves about the states a history reaches
+    is [C02_history_find_rule] below) *)
 Theorem C02_F3_refuted :
   exists (ops : list hop) (path : str) (m : matcher rval),
     guard_F3 (hist_db ops) (fresh_db ops) path = true /\
@@ -150,6 +154,123 @@ Theorem C02_rulesets_order_independent :
     = tree_find_rule (tree_load_rulesets empty_tree sets') dflt path m.
 Proof. exact tree_rulesets_order_independent. Qed.
 Print Assumptions C02_rulesets_order_independent.
+
+(** ** every state the index can reach (Adds AND Deletes)
+
+    The repository changes its index by Add and by Delete (UpdateRuleSet / DeleteRuleSet).
+    [top] = one operation: [OAdd] (expression, value, flag) or [ODel] (expression, value
+    matcher); [tree_run ops] = the compressed tree after the operations [ops] on the empty
+    tree (Radix/Tree.v's Add, C06/TreeDel.v's transcription of Delete / delNode / deleteChild;
+    a failed operation leaves the tree as it was); [mach_run ops] = the pattern-map machine's
+    index after the same operations; [valid_op]: a Delete names an expression ([parse_expr]
+    accepts it — the repository deletes only routes it has added, see
+    [C02_history_index_is_reachable]).  [wfd] = [wfb] and the shape invariant Delete needs. *)
+
+(** after ANY sequence of Adds and Deletes the tree satisfies the invariant and holds exactly
+    the entries of the machine's index, which is a machine state (one entry per expression,
+    no entry without values, well-formed expressions) *)
+Theorem C02_reachable_tree_refines_machine :
+  forall (V : Type) (can_add : list V -> V -> bool) (ops : list (top V)),
+    Forall valid_op ops ->
+    wfd (tree_run can_add ops) = true /\
+    wf_db V (mach_run can_add ops) /\
+    Permutation.Permutation (abs (tree_run can_add ops)) (mach_run can_add ops).
+Proof. exact run_refines. Qed.
+Print Assumptions C02_reachable_tree_refines_machine.
+
+(** ... so in every such state findNode returns what the specification says on the routes
+    currently stored: most specific matching expression first, first acceptable value in
+    insertion order, a less specific expression only if the failed one allows backtracking —
+    with the flag the property states, outside finding C02-F2 ... *)
+Theorem C02_reachable_find_is_most_specific :
+  forall (V : Type) (can_add : list V -> V -> bool) (vflag : V -> bool) (m : matcher V)
+         (ops : list (top V)) (path : str),
+    Forall valid_op ops ->
+    guard_F2 vflag (mach_run can_add ops) path m = false ->
+    tree_find true true true m (tree_run can_add ops) path
+    = spec_lookup (respec vflag (mach_run can_add ops)) path m.
+Proof. exact run_find_is_spec_F2. Qed.
+Print Assumptions C02_reachable_find_is_most_specific.
+
+(** ... and, unguarded, with the flag in force (a Delete leaves the flag of a node that keeps
+    values untouched) *)
+Theorem C02_reachable_find_is_most_specific_with_flag_in_force :
+  forall (V : Type) (can_add : list V -> V -> bool) (m : matcher V) (ops : list (top V)) (path : str),
+    Forall valid_op ops ->
+    tree_find true true true m (tree_run can_add ops) path = spec_lookup (mach_run can_add ops) path m.
+Proof. exact run_find_is_spec. Qed.
+Print Assumptions C02_reachable_find_is_most_specific_with_flag_in_force.
+
+(** independent of the order of the operations: the entry of an expression is decided by the
+    Adds and Deletes of THAT expression alone, in their order ([op_node]) — so two sequences
+    that interleave the operations on different expressions differently answer every lookup alike *)
+Theorem C02_reachable_order_independent :
+  (forall (V : Type) (can_add : list V -> V -> bool) (ops : list (top V)) (p : pat),
+     assoc p (mach_run can_add ops) = op_node can_add p ops) /\
+  (forall (V : Type) (can_add : list V -> V -> bool) (m : matcher V) (ops ops' : list (top V)) (path : str),
+     Forall valid_op ops -> Forall valid_op ops' -> same_op_groups ops ops' ->
+     tree_find true true true m (tree_run can_add ops) path
+     = tree_find true true true m (tree_run can_add ops') path).
+Proof. exact (conj run_assoc run_order_independent). Qed.
+Print Assumptions C02_reachable_order_independent.
+
+(** ** the repository after ANY history of AddRuleSet / UpdateRuleSet / DeleteRuleSet
+    ([hist_tree], C02/HistTree.v: clone, Delete the routes of the rules that are gone or
+    changed, Add the routes of the new or changed ones, swap only if every operation
+    succeeded; routes are objects, deleted by identity; which operations the implementation
+    accepted and SameAs / EqualTo are data of the history).  Its index is a tree reachable by
+    Adds and Deletes of valid expressions and satisfies the invariant ... *)
+Theorem C02_history_index_is_reachable :
+  forall (ops : list hop),
+    reachable usame_src (ts_tree (hist_tree ops)) /\ wfd (ts_tree (hist_tree ops)) = true.
+Proof. exact (fun ops => conj (hist_tree_reachable ops) (hist_tree_wfd ops)). Qed.
+Print Assumptions C02_history_index_is_reachable.
+
+(** ... and FindRule returns the rule the specification selects among the routes stored,
+    else the default rule, else "no rule" (outside C02-F2; which routes ARE stored after an
+    update, and in which order, is C02-F3 / C06's statement) *)
+Theorem C02_history_find_rule :
+  forall (vflag : rval -> bool) (ops : list hop) (dflt : bool) (path : str) (m : matcher rval),
+    let t := ts_tree (hist_tree ops) in
+    let uflag := fun v : uval => vflag (fst v) in
+    guard_F2 uflag (abs t) path (m_u m) = false ->
+    match spec_lookup (respec uflag (abs t)) path (m_u m) with
+    | Found v _ _ => utree_find_rule t dflt path m = ORule (fst (fst v))
+    | NoMatch => utree_find_rule t dflt path m = if dflt then ODefault else ONoRule
+    end.
+Proof. exact hist_find_rule_is_spec_F2. Qed.
+Print Assumptions C02_history_find_rule.
+
+(** the routes stored, independently of the tree: when the model tree has followed the
+    history to its end ([ts_ok]: every operation the implementation accepted succeeded on it —
+    checked per case in stream "history"), it is the tree after the flat list [hist_ops] of the
+    Deletes and Adds those operations issue, all of them valid, and FindRule returns what the
+    specification selects in the pattern-map machine's index after them ([mach_run]: per
+    expression, an Add appends a route and sets the flag, a Delete removes the very route) *)
+Theorem C02_history_find_rule_on_stored_routes :
+  forall (ops : list hop) (dflt : bool) (path : str) (m : matcher rval),
+    ts_ok (hist_tree ops) = true ->
+    ts_tree (hist_tree ops) = tree_run usame_src (hist_ops ops) /\
+    Forall valid_op (hist_ops ops) /\
+    utree_find_rule (ts_tree (hist_tree ops)) dflt path m
+    = outcome_of dflt (ufound (spec_lookup (mach_run usame_src (hist_ops ops)) path (m_u m))).
+Proof. exact hist_stored_routes. Qed.
+Print Assumptions C02_history_find_rule_on_stored_routes.
+
+(** non-vacuity: a history (two creates, an update that moves a rule and drops another, a
+    delete of a whole set) that the model tree follows to the end, with lookups that fall
+    through to a less specific expression, find a moved rule, and find nothing any more *)
+Theorem C02_history_nonvacuous :
+  ts_ok (hist_tree rx_ops) = true /\
+  ts_ok (hist_tree (firstn 3 rx_ops)) = true /\
+  utree_find_rule (ts_tree (hist_tree (firstn 3 rx_ops))) false (rx_str "/foo/bar") (rx_only [4; 5]) = ORule 4 /\
+  utree_find_rule (ts_tree (hist_tree (firstn 3 rx_ops))) false (rx_str "/foo/baz/1") (rx_only [1; 2; 3; 4; 5]) = ORule 5 /\
+  utree_find_rule (ts_tree (hist_tree (firstn 3 rx_ops))) false (rx_str "/foo/bazaar/1") (rx_only [1; 2; 3; 4; 5]) = ORule 2 /\
+  utree_find_rule (ts_tree (hist_tree rx_ops)) false (rx_str "/foo/bar") (rx_only [4; 5]) = ONoRule /\
+  utree_find_rule (ts_tree (hist_tree rx_ops)) true (rx_str "/x/bar") (rx_only [1; 2; 3; 4; 5]) = ODefault /\
+  map fst (abs (ts_tree (hist_tree rx_ops))) = [lits (rx_str "/foo/bar"); lits (rx_str "/foo/bazaar/") ++ [W]].
+Proof. exact hist_nonvacuous. Qed.
+Print Assumptions C02_history_nonvacuous.
 
 (** ** what the specification says, sentence by sentence *)
 
